@@ -5,7 +5,7 @@
 (* hit / miss - is permitted by the property (ProcFilterP) with the deviations Dev.         *)
 (* The same module writes the case set, with the model's prediction, for the replay on the  *)
 (* real processor (GenInit).                                                                *)
-EXTENDS ProcFilterI, Json
+EXTENDS ProcFilterI, Json, SequencesExt
 
 CONSTANTS Dev,        \* deviations accepted by the property in this run
           Tier        \* "quick" | "large": size of the URL family
@@ -44,7 +44,7 @@ https == <<"h", "t", "t", "p", "s", ":", "/", "/">>
 http == <<"h", "t", "t", "p", ":", "/", "/">>
 
 Hosts(t) == {at, xat, bt, sat} \cup (IF t = "large" THEN {atx, wat, AT, axt} ELSE {wat, atx})
-Paths(t) == {<<>>, P_p, P_pq, P_p_q, P_q} \cup (IF t = "large" THEN {P_q_p, P_P, P_at} ELSE {P_at})
+Paths(t) == {<<>>, P_p, P_pq, P_p_q, P_q, P_q_p} \cup (IF t = "large" THEN {P_P, P_at} ELSE {P_at})
 Urls(t) == {h \o p : h \in Hosts(t), p \in Paths(t)}
 
 Pats(t) ==
@@ -73,8 +73,8 @@ One == <<"O", "n", "e">>
 lone == <<"o", "n", "e">>
 eq == <<"=">>
 
-Req(m, u, H) == [dir |-> "request", m |-> m, url |-> u, h |-> H, st |-> 0]
-Resp(m, u, H, st) == [dir |-> "response", m |-> m, url |-> u, h |-> H, st |-> st]
+Req(m, u, H) == [dir |-> "request", reach |-> TRUE, m |-> m, url |-> u, h |-> H, st |-> 0]
+Resp(m, u, H, st) == [dir |-> "response", reach |-> TRUE, m |-> m, url |-> u, h |-> H, st |-> st]
 
 \* ---- families of cases
 P1(k, v) == k :> v
@@ -149,11 +149,14 @@ ConfOf(x, DD) ==
          /\ \E cf \in FilterConfigs(x.par, DD) : Out(x) \in FilterPermitted(cf, x.x, DD)
 Conf == ConfOf(cs, Dev)
 
-\* reachability witnesses (expected to be violated)
-WitHit == ~(Load(cs).ok /\ Out(cs) = "hit")
-WitMiss == ~(Load(cs).ok /\ Out(cs) = "miss")
-WitReject == ~(~Load(cs).ok)
-WitEither == ~(Load(cs).ok /\ \E cf \in FilterConfigs(cs.par, Dev) : FilterPermitted(cf, cs.x, Dev) = {"hit", "miss"})
+\* reachability witnesses: the space holds hits, misses, refused flows and sides the texts leave open (checked at start-up of
+\* every run of the model as it is; a missing witness makes the run fail)
+WitAll == /\ \E x \in Cases(Tier) : Load(x).ok /\ Out(x) = "hit"
+          /\ \E x \in Cases(Tier) : Load(x).ok /\ Out(x) = "miss"
+          /\ \E x \in Cases(Tier) : ~Load(x).ok
+          /\ \E x \in Cases(Tier) : Load(x).ok /\ \E cf \in FilterConfigs(x.par, AllDev) : FilterPermitted(cf, x.x, AllDev) = {"hit", "miss"}
+          /\ \E x \in Cases(Tier) : Load(x).ok /\ x.x.dir = "response" /\ Out(x) = "hit"
+ASSUME Bug = "none" => WitAll
 
 -----------------------------------------------------------------------------
 \* spec -> code: the case set as JSON (sets as arrays) with the model's prediction
@@ -164,6 +167,6 @@ GenCase(x) == [par |-> x.par, x |-> [x.x EXCEPT !.h = SetSeq(x.x.h)],
                load |-> IF Load(x).ok THEN "ok" ELSE "reject",
                out |-> IF Load(x).ok THEN Out(x) ELSE "none"]
 GenInit == /\ cs = [par |-> <<>>, x |-> <<>>]
-           /\ JsonSerialize("gen_cases_filter.json", [cases |-> {GenCase(x) : x \in Cases(Tier)}])
+           /\ LET sq == SetToSeq(Cases(Tier)) IN JsonSerialize("gen_cases_filter.json", [cases |-> [i \in 1..Len(sq) |-> GenCase(sq[i])]])
            /\ PrintT(<<"GEN-CASES", Cardinality(Cases(Tier))>>)
 =============================================================================
